@@ -206,7 +206,9 @@ def run_property(pid, tier, seed, jobs=None, only_index=None):
 
     lines = []
     for key, vs in sorted(known_hits.items()):
-        lines.append(f"KNOWN-FINDING: property={pid} {key}: {findings[(pid, key)]['what_fails']} ({len(vs)} case(s) this run)")
+        wf = findings[(pid, key)]["what_fails"]
+        wf = wf if len(wf) <= 240 else wf[:237] + "..."
+        lines.append(f"KNOWN-FINDING: property={pid} {key}: {wf} ({len(vs)} case(s) this run)")
     replay_dir = os.path.join(VERIF, "replays")
     os.makedirs(replay_dir, exist_ok=True)
     seen_keys = set()
